@@ -2,13 +2,13 @@
 (* Scenario family "rbf" (C26, C28, C22): three mature base coins of 100 000 sat (coinbases of heights 1..3; base tip 110).   *)
 (* Fees are placed at -1 / 0 / +1 satoshi of the Rule 3 / Rule 4 / min-relay thresholds for the measured virtual sizes      *)
 (* (1 input + 1 output + marker = 174 vB, so 18 sat at 100 sat/kvB; the driver's vacuity guard fails if a size change moves a threshold).             *)
-EXTENDS Integers, Sequences
+EXTENDS Integers, Sequences, UniCommon
 F == [kind |-> "final", v |-> 0]
 NoLock == [kind |-> "none", v |-> 0]
 In(t, i) == [op |-> <<t, i>>, seq |-> F]
 Out(v) == [v |-> v, cls |-> "true"]
-Tx(ins, outs) == [ins |-> ins, outs |-> outs, ver |-> 1, lock |-> NoLock, pad |-> 0]
-TxP(ins, outs, pad) == [ins |-> ins, outs |-> outs, ver |-> 1, lock |-> NoLock, pad |-> pad]
+Tx(ins, outs) == [ins |-> ins, outs |-> outs, ver |-> 1, lock |-> NoLock, pad |-> 0, twin |-> 0]
+TxP(ins, outs, pad) == [ins |-> ins, outs |-> outs, ver |-> 1, lock |-> NoLock, pad |-> pad, twin |-> 0]
 TxUDef == <<
   Tx(<<In(0,1)>>, <<Out(49500), Out(49500)>>),        \*  1: parent, fee 1000, two outputs
   Tx(<<In(1,1)>>, <<Out(49000)>>),                    \*  2: child of 1, fee 500
